@@ -28,6 +28,7 @@ func runC15(p *eng.Prog, r *eng.Report, tier string) {
 	// writer and Close, or between the serve loop and a requester, ends every guarantee of this property
 	lockOrder(c, "C15.26")
 	c15CarrierTypes(c, "C15.24")
+	c.r.Floor("C15.27", "decode targets with namespace-blind attribute tags in ibb", attrTagsDecodeOwnAttributes(c, "C15.27", "ibb"), 2)
 	c.r.Floor("C15.25", "blocking channel operations in ibb", lockHeldAcrossChannelOp(c, "C15.25", "ibb."), 3)
 	c15Open(c)
 	c15Payload(c)
